@@ -436,7 +436,15 @@ def _c09_oracle(tr, origin):
 def run_c09(ctx):
     n = _tier(ctx, 32, 400)
     jobs = pc.corpus_jobs(['S19_*.scn', 'S25_*.scn', 'S7_*.scn']) + pc.generated_jobs('C09', ctx['seed'], n, ['values', 'parents', 'mixed', 'assets', 'entities', 'skinned'])
-    out = pc.run_scenarios('C09', ctx, jobs, [_c09_oracle], nontrivial=pc.received_kinds)
+    # non-conflicting histories: exact cost per operation (no echo at all)
+    jp, _ = _jobs_from(scen.parents_clean, 'C09p', ctx['seed'], max(8, n // 4))
+    jv, _ = _jobs_from(scen.values_clean, 'C09v', ctx['seed'], max(8, n // 4), family=[0, 1, 2, 3, 4, 5, 6])
+    tight = {name for name, _ in jp + jv}
+    jobs = jobs + jp + jv
+
+    def orc(tr, origin):
+        return _c09_oracle(tr, origin) + (oracles.c09_tight(tr, origin) if origin.get('name') in tight else [])
+    out = pc.run_scenarios('C09', ctx, jobs, [orc], nontrivial=pc.received_kinds)
     nrep, nskip = _abspar(out)
     out['opstats']['parent_model_replays'] = nrep
     out['opstats']['parent_model_replays_outside_premises'] = nskip
@@ -477,6 +485,9 @@ def run_c10(ctx):
 # ---- C15 -------------------------------------------------------------------------------------
 def _c15_oracle(tr, origin):
     out = oracles.c15_states(tr, origin) + oracles.stuck_states(tr, origin)
+    if origin.get('name', '').startswith('C15_'):
+        # the session family: the host builds its world and runs three frames before anybody joins
+        out += oracles.c15_snapshot_applied(tr, origin)
     # InitialSyncFinished: at most once per join on a client, once on the host when it starts hosting
     last = oracles.final_worlds(tr)
     setups = {}
@@ -519,12 +530,13 @@ def run_c16(ctx):
 def run_c17(ctx):
     n = _tier(ctx, 24, 300)
     gj, metas = _jobs_from(scen.values_clean, 'C17', ctx['seed'], n, family=[2, 3, 4, 5, 6])
-    jobs = pc.corpus_jobs(['S2_*.scn', 'S5_*.scn']) + gj + pc.generated_jobs('C17f', ctx['seed'], n // 3, ['values'], types=[2, 3, 4, 5, 6])
+    gp, _ = _jobs_from(scen.companions_present, 'C17p', ctx['seed'], max(6, n // 4))
+    jobs = pc.corpus_jobs(['S2_*.scn', 'S5_*.scn']) + gj + gp + pc.generated_jobs('C17f', ctx['seed'], n // 3, ['values'], types=[2, 3, 4, 5, 6])
 
     def conv(tr, origin):
         # convergence of the replicated values is demanded only of the drain-separated histories
         return oracles.c02_values(tr, origin) if not origin.get('name', '').startswith('C17f') else []
-    out = pc.run_scenarios('C17', ctx, jobs, [oracles.c17_companions, oracles.panics, conv], nontrivial=pc.received_kinds)
+    out = pc.run_scenarios('C17', ctx, jobs, [oracles.c17_companions, oracles.c17_present_untouched, oracles.panics, conv], nontrivial=pc.received_kinds)
     return pc.make_result('C17', ctx, out, 'frames of histories writing Transform / Visibility / PointLight / SpotLight / DirectionalLight on synchronized entities from owners and other peers (drain-separated writers: values must converge; free-form: companions only), with further writes at every frame offset; companions checked after every frame; non-trivial = distinct (scenario, receiver, kind, key) received')
 
 
